@@ -45,7 +45,15 @@ Definition regexp_openfile_wraps : Z := 1.
 Definition cow_mask : Z := 1603.
 (* cacheOnReadFs.go OpenFile: union handle over both layers iff flag&MASK != 0 *)
 Definition cache_mask : Z := 1603.
+(* cacheOnReadFs.go copyToLayer: 1 iff a base directory is created in the layer with MkdirAll *)
+Definition cache_copy_dir_mkdir : Z := 1.
+(* cacheOnReadFs.go Remove: 1 iff a cache miss returns the base's Remove result without calling the layer *)
+Definition cache_remove_miss_base_only : Z := 1.
+(* cacheOnReadFs.go OpenFile: 1 iff O_EXCL is cleared from the flags after copyFileToLayer *)
+Definition cache_openfile_clears_excl : Z := 1.
 (* unionFile.go ReadAt: 1 iff it seeks the base handle after reading the layer *)
-Definition union_readat_seeks_base : Z := 1.
+Definition union_readat_seeks_base : Z := 0.
+(* unionFile.go copyFileToLayer: 1 iff the base is opened with flag&^os.O_APPEND *)
+Definition copyfiletolayer_clears_append : Z := 1.
 (* unionFile.go Readdir(c<=0): 1 iff the call advances the offset to the end of the listing *)
 Definition union_readdir_all_advances : Z := 1.
